@@ -26,7 +26,13 @@ GateCaseS(e, dts, shk, feat) ==
     x |-> [dts |-> dts, shk |-> shk] @@ GateOutcome(e, dts), feat |-> <<GateOutcome(e, dts).expect, feat>>, known |-> <<>>]
 GateCase(e, dts, feat) == GateCaseS(e, dts, [i \in 1..Len(dts) |-> "one"], feat)
 MaxN(e) == IF e.name = "Concat" THEN 4 ELSE e.max + 2
+\* a variadic operator accepts input lists of any length: long lists, every position typed alike, one position perturbed
+LongListCases(e) ==
+   \A n \in {33, 65, 130} :
+      /\ P(GateCase(e, Base(e, n), "long_list"))
+      /\ \A i \in {1, 32, 33, n} : P(GateCase(e, [Base(e, n) EXCEPT ![i] = "int"], "long_list_dtype")) /\ P(GateCase(e, [Base(e, n) EXCEPT ![i] = "i64"], "long_list_dtype"))
 GateCases(e) ==
+   (e.name = "Concat" => LongListCases(e)) /\
    \A n \in 0..MaxN(e) :
       /\ P(GateCase(e, Base(e, n), "count"))
       /\ \A i \in 1..n : \A d \in GateTypes : d # BaseType(e, i) => P(GateCase(e, [Base(e, n) EXCEPT ![i] = d], "dtype"))
@@ -39,7 +45,7 @@ GateCases(e) ==
       /\ \A i, j \in 1..n : (i > e.min /\ j # i) =>
             \A d \in GateTypes : d # BaseType(e, j) => P(GateCase(e, [Base(e, n) EXCEPT ![i] = "nil", ![j] = d], "nil_and_dtype"))
 
-BadNames == {"", "add", "ADD", " Add", "Add ", "Gelu", "LayerNormalization", "HardSwish", "Mish", "Relu6", "Softmax13", "Pow", "Sqrt", "Identity",
+BadNames == {"Relu%", "%v", "%s", "Top%dK", "100%Relu", "%w", "", "add", "ADD", " Add", "Add ", "Gelu", "LayerNormalization", "HardSwish", "Mish", "Relu6", "Softmax13", "Pow", "Sqrt", "Identity",
              "ai.onnx.Add", "Scaler2", "lstm", "Conv2D", "MaxPool", "BatchNormalization"}
 NameCase(name, known) ==
    [prop |-> "C15", fam |-> "names", kind |-> "lookup", op |-> name, attrs |-> <<>>, inputs |-> <<>>, nout |-> 0,
